@@ -37,6 +37,8 @@ def required_cells(tier):
         req["body:" + fam] = 20 if q else 300
     req["kind:PH"] = 200 if q else 5000
     req["pose:via-move"] = 150 if q else 4000
+    req["pose:original-after-sibling-moved"] = 50 if q else 1000
+    req["pose:constructor-arguments-moved-afterwards"] = 50 if q else 1000
     req["perm:exhaustive-polygon"] = 100
     req["orient:exhaustive-polyhedron"] = 100
     return req
@@ -98,25 +100,53 @@ def cases(rng, budget, widx, nworkers, tier):
 
 
 def _with_move(case, rng):
-    """the same body reached by building it elsewhere and moving it into place (receiver or return value measured)"""
-    if rng.random() < 0.15:
-        case["mv"] = {"v": [rng.randint(-8, 8) for _ in range(3)], "use": rng.choice(("receiver", "returned"))}
+    """the same body reached through a history: built elsewhere, measured there, moved into place (receiver or
+    return value measured); or a sibling derived from it (negation / deep copy) is moved away afterwards; or the
+    objects it was constructed from are moved afterwards - none of which may change its measures"""
+    r = rng.random()
+    if r < 0.15:
+        case["mv"] = {"v": [rng.randint(-8, 8) for _ in range(3)], "use": rng.choice(("receiver", "returned")),
+                      "sib": rng.choice((None, "neg", "copy")), "w": [rng.randint(-5, 5) for _ in range(3)]}
+    elif r < 0.22:
+        case["mv"] = {"v": [0, 0, 0], "use": "original-after-sibling-moved", "sib": rng.choice(("neg", "copy")),
+                      "w": [rng.randint(-5, 5) or 1 for _ in range(3)]}
+    elif r < 0.3:
+        case["argmove"] = [rng.randint(-5, 5) or 2 for _ in range(3)]
     return case
 
 
 def _moved(G, build, mv, nt):
-    """build(shift) -> object constructed at position - v; moved by v"""
+    """build(shift) -> object constructed at position + shift"""
+    import copy as _copy
     v = tuple(F(c) for c in mv["v"])
     o = build(K.mul(v, -1))
-    ret = o.move(G.Vector(*[num(c, nt) for c in v]))
-    return o if mv["use"] == "receiver" else ret
+    for name in ("length", "area", "volume"):
+        if hasattr(o, name) and callable(getattr(o, name)):
+            getattr(o, name)()
+    sib = None
+    if mv.get("sib") == "neg" and M.kind(o) == "PG":
+        sib = -o
+    elif mv.get("sib"):
+        sib = _copy.deepcopy(o)
+    ret = o
+    if mv["use"] != "original-after-sibling-moved":
+        ret = o.move(G.Vector(*[num(c, nt) for c in v]))
+    if sib is not None and hasattr(sib, "move"):
+        sib.move(G.Vector(*[float(c) for c in mv.get("w", (1, 2, 3))]))
+    return ret if mv["use"] == "returned" else o
 
 
-def build_polygon(G, vs, order, nt):
-    return G.ConvexPolygon(tuple(G.Point(num(vs[i][0], nt), num(vs[i][1], nt), num(vs[i][2], nt)) for i in order))
+def build_polygon(G, vs, order, nt, argmove=None):
+    pts = tuple(G.Point(num(vs[i][0], nt), num(vs[i][1], nt), num(vs[i][2], nt)) for i in order)
+    pg = G.ConvexPolygon(pts)
+    if argmove:
+        w = G.Vector(*[float(c) for c in argmove])
+        for q in pts:
+            q.move(w)             # the caller's Points go elsewhere after the polygon was built from them
+    return pg
 
 
-def build_polyhedron(G, faces, forder, flips, rots, nt):
+def build_polyhedron(G, faces, forder, flips, rots, nt, argmove=None):
     polys = []
     for j, fi in enumerate(forder):
         f = list(faces[fi])
@@ -125,7 +155,12 @@ def build_polyhedron(G, faces, forder, flips, rots, nt):
         if (flips >> j) & 1:
             f.reverse()
         polys.append(G.ConvexPolygon(tuple(G.Point(num(v[0], nt), num(v[1], nt), num(v[2], nt)) for v in f)))
-    return G.ConvexPolyhedron(tuple(polys))
+    ph = G.ConvexPolyhedron(tuple(polys))
+    if argmove:
+        w = G.Vector(*[float(c) for c in argmove])
+        for pg in polys:
+            pg.move(w)            # the caller's face polygons go elsewhere after the polyhedron was built from them
+    return ph
 
 
 def _cmp(mu, what, got, want, key):
@@ -166,10 +201,12 @@ def judge(case):
         if case.get("exh"):
             mu.cell("perm:exhaustive-polygon")
         if case.get("mv") and k == "PG":
-            mu.cell("pose:via-move")
+            mu.cell("pose:via-move", "pose:" + case["mv"]["use"])
             pg = _moved(G, lambda sh: build_polygon(G, [K.add(v, sh) for v in vs], order, nt), case["mv"], nt)
         else:
-            pg = build_polygon(G, vs, order, nt)
+            pg = build_polygon(G, vs, order, nt, case.get("argmove") if k == "PG" else None)
+            if case.get("argmove") and k == "PG":
+                mu.cell("pose:constructor-arguments-moved-afterwards")
         area = K.polygon_area(vs)
         if k == "PG":
             for name, want in (("length", K.polygon_perimeter(vs)), ("area", area)):
@@ -200,10 +237,12 @@ def judge(case):
     if case.get("exh"):
         mu.cell("orient:exhaustive-polyhedron")
     if case.get("mv"):
-        mu.cell("pose:via-move")
+        mu.cell("pose:via-move", "pose:" + case["mv"]["use"])
         ph = _moved(G, lambda sh: build_polyhedron(G, [[K.add(v, sh) for v in f] for f in d[2]], case["forder"], case["flips"], case["rots"], nt), case["mv"], nt)
     else:
-        ph = build_polyhedron(G, d[2], case["forder"], case["flips"], case["rots"], nt)
+        ph = build_polyhedron(G, d[2], case["forder"], case["flips"], case["rots"], nt, case.get("argmove"))
+        if case.get("argmove"):
+            mu.cell("pose:constructor-arguments-moved-afterwards")
     want = {"length": K.polyhedron_length(d), "area": K.polyhedron_area(d), "volume": float(K.polyhedron_volume(d))}
     vals = {}
     for name in ("length", "area", "volume"):
